@@ -289,8 +289,62 @@ impl Ctx<'_> {
             .violation(&key, &format!("{a} {op} {b} ({form} form): {why}"), "c08", &payload);
     }
 
+
+    /// the same name on both sides of an operator (`a op a`, `x := a; x op x`, `*c op *c`, `x := LIT; x op x`, `c op= *c`):
+    /// a folding pass that decides `x op x` from the operands being one name must still agree with the arithmetic
+    /// (NaN != NaN, 0 / 0 fails, inf - inf is NaN, MIN / MIN == 1 ...)
+    fn check_same_operand(&mut self, ty: &str, op: &str, exp: &Exp, val: Variable, lit: Option<String>, assign: bool) {
+        let shown = format!("{val:?}");
+        let rt = result_ty(ty, op);
+        self.rep.count("same_operand_cases");
+        let forms = [
+            ("same-param", format!("(a: {ty}) -> {rt} {{ return a {op} a }}")),
+            ("same-local", format!("(a: {ty}) -> {rt} {{ x := a; return x {op} x }}")),
+            ("same-deref", format!("(a: {ty}) -> {rt} {{ c := mut a; return *c {op} *c }}")),
+            ("same-nested-fn", format!("(a: {ty}) -> {rt} {{ g := () -> {rt} {{ return a {op} a }}; return g() }}")),
+        ];
+        for (form, text) in forms {
+            if let Some(f) = self.funcs.get(&format!("{ty} {form} {op}"), || text.clone()) {
+                let out = call(&f, vec![val.clone()]);
+                self.rep.evaluations += 1;
+                self.rep.count("form_same_operand");
+                if let Err(why) = judge(exp, &out) {
+                    self.fail(form, ty, op, &shown, &shown, &format!("{why} [{text}]"));
+                }
+            }
+        }
+        if let Some(l) = lit {
+            let text = format!("x := {l}; x {op} x");
+            let out = real::parse_exec(&text, false);
+            self.rep.evaluations += 1;
+            self.rep.count("form_same_operand");
+            if let Err(why) = judge(exp, &out) {
+                self.fail("same-constant", ty, op, &shown, &shown, &format!("{why} [{text}]"));
+            }
+        }
+        if assign {
+            let text = format!("(a: {ty}) -> ({ty}, {ty}) {{ c := mut a; r := c {op}= *c; return (r, *c) }}");
+            if let Some(f) = self.funcs.get(&format!("{ty} same-assign {op}"), || text.clone()) {
+                let out = call(&f, vec![val.clone()]);
+                self.rep.evaluations += 1;
+                self.rep.count("form_same_operand");
+                let verdict = match (exp, &out) {
+                    (Exp::Err(_), o) => judge(exp, o),
+                    (e, Outcome::Value(Variable::Tuple(t))) if t.len() == 2 && same(e, &t[0]) && same(e, &t[1]) => Ok(()),
+                    (e, o) => Err(format!("expected ({e:?}, same) got {}", describe(o))),
+                };
+                if let Err(why) = verdict {
+                    self.fail("same-assign", ty, op, &shown, &shown, &format!("{why} [{text}]"));
+                }
+            }
+        }
+    }
+
     fn check_int(&mut self, op: &str, a: i64, b: i64) {
         let exp = int_oracle(op, a, b);
+        if a == b {
+            self.check_same_operand("int", op, &exp, Variable::Int(a), Some(format!("({})", int_lit(a))), INT_ASSIGN.contains(&op));
+        }
         self.rep.shape("int_cells", &format!("{op} {} {}", int_class(a), int_class(b)));
         if let Exp::Err(k) = &exp {
             self.rep.shape("errors_by_op", &format!("{op}:{}", k.name()));
@@ -398,6 +452,9 @@ impl Ctx<'_> {
 
     fn check_float(&mut self, op: &str, a: f64, b: f64) {
         let exp = float_oracle(op, a, b);
+        if a.to_bits() == b.to_bits() {
+            self.check_same_operand("float", op, &exp, Variable::Float(a), float_lit(a).map(|l| format!("({l})")), FLOAT_ASSIGN.contains(&op));
+        }
         self.rep.distinct_case(&("float", op, a.to_bits(), b.to_bits()));
         self.rep.shape("float_cells", &format!("{op} {} {}", float_class(a), float_class(b)));
         if let (Some(la), Some(lb)) = (float_lit(a), float_lit(b)) {
@@ -493,6 +550,9 @@ impl Ctx<'_> {
 
     fn check_bool(&mut self, op: &str, a: bool, b: bool) {
         let exp = bool_oracle(op, a, b);
+        if a == b {
+            self.check_same_operand("bool", op, &exp, Variable::Bool(a), Some(a.to_string()), BOOL_ASSIGN.contains(&op));
+        }
         self.rep.distinct_case(&("bool", op, a, b));
         let text = format!("{a} {op} {b}");
         let out = real::parse_exec(&text, false);
@@ -652,6 +712,7 @@ pub fn run(cfg: &Cfg, rep: &mut Report) {
             0..=6 => {
                 let op = *rng.pick(&INT_BIN);
                 let (a, b) = random_int(&mut rng, op);
+                let b = if rng.chance(1, 12) { a } else { b };
                 ctx.check_int(op, a, b);
             }
             7 => {
@@ -662,6 +723,7 @@ pub fn run(cfg: &Cfg, rep: &mut Report) {
             _ => {
                 let op = *rng.pick(&FLOAT_BIN);
                 let (a, b) = (rng.float(), rng.float());
+                let b = if rng.chance(1, 12) { a } else { b };
                 ctx.check_float(op, a, b);
                 if rng.chance(1, 8) {
                     ctx.check_float_unary(a);
